@@ -6,6 +6,7 @@ import (
 	"math/rand"
 	"strconv"
 	"sync"
+	"sync/atomic"
 	"testing"
 	"time"
 
@@ -38,15 +39,21 @@ type fanoutCtl struct {
 
 var fctl = &fanoutCtl{next: make(chan struct{}), goOn: make(chan struct{}), ret: make(chan struct{}, 16)}
 
+// fanoutBypass > 0: the hooks do nothing (priming requests run ungated and concurrently).
+var fanoutBypass atomic.Int32
+
+// diagnostics (pacing only)
+var primeTimeouts, primeNanos, retries atomic.Int64
+
 func installFanoutHooks() func() {
 	verifhook.SetGate(func(name string, kv ...any) {
-		if name == "receive.Handler.fanoutForward.next" {
+		if name == "receive.Handler.fanoutForward.next" && fanoutBypass.Load() == 0 {
 			fctl.next <- struct{}{}
 			<-fctl.goOn
 		}
 	})
 	verifhook.SetSink(func(name string, kv ...any) {
-		if name == "receive.Handler.fanoutForward.return" {
+		if name == "receive.Handler.fanoutForward.return" && fanoutBypass.Load() == 0 {
 			fctl.ret <- struct{}{}
 		}
 	})
@@ -133,9 +140,10 @@ func sortInts(s []int) {
 }
 
 type fanoutDriver struct {
-	t     *testing.T
-	envs  map[string]*env
-	runNo int
+	t        *testing.T
+	envs     map[string]*env
+	runNo    int
+	deadAddr string
 }
 
 func newFanoutDriver(t *testing.T) *fanoutDriver {
@@ -143,14 +151,16 @@ func newFanoutDriver(t *testing.T) *fanoutDriver {
 }
 
 func (d *fanoutDriver) close() {
+	d.t.Logf("fan-out driver: %d runs, %d retried, priming %.1fs, %d primer barrier timeouts", d.runNo, retries.Load(),
+		float64(primeNanos.Load())/1e9, primeTimeouts.Load())
 	for _, e := range d.envs {
 		setPeerFunc(e.peers, nil)
 		e.close()
 	}
 }
 
-func (d *fanoutDriver) env(rf, nn int, mode string) *env {
-	k := fmt.Sprintf("%d/%d/%s", rf, nn, mode)
+func (d *fanoutDriver) env(rf, nn int, mode string, backoff bool) *env {
+	k := fmt.Sprintf("%d/%d/%s/%v", rf, nn, mode, backoff)
 	if e, ok := d.envs[k]; ok {
 		return e
 	}
@@ -158,24 +168,165 @@ func (d *fanoutDriver) env(rf, nn int, mode string) *env {
 	if mode == "routeringestor" {
 		m = receive.RouterIngestor
 	}
-	e := newEnv(d.t, envOpts{nodes: nn, rf: rf, mode: m, forwardTimeout: 30 * time.Second})
+	o := envOpts{nodes: nn, rf: rf, mode: m, forwardTimeout: 30 * time.Second}
+	if backoff {
+		o.workers = 64           // room for every primer write of every replica on one node
+		o.maxBackoff = time.Hour // peers that failed stay refused for min(100ms * 2^failures, 1h), jittered
+	}
+	e := newEnv(d.t, o)
 	d.envs[k] = e
 	return e
 }
 
-// runOrder executes the case once with the given response order (1-based er indices).
+// isLocal: the failure is produced by the handler itself, before any RPC.
+//
+//	"noconn": the peer is in its back-off window after earlier failures (getConnection refuses it)
+//	"nodial": the peer's address cannot be dialled (grpc.NewClient fails)
+func isLocal(o string) bool { return o == "noconn" || o == "nodial" }
+
+// prime makes the handler's peer group put the given nodes into back-off: `primers` concurrent
+// ungated requests whose writes to those nodes are answered Unavailable (all at once, so every one
+// of them reaches the peer and counts as a failure: window = jitter(100ms * 2^failures)).
+const primers = 8
+
+func (d *fanoutDriver) prime(e *env, down map[int]bool, runID string, nn int) {
+	t0 := time.Now()
+	defer func() { primeNanos.Add(int64(time.Since(t0))) }()
+	fanoutBypass.Add(1)
+	defer fanoutBypass.Add(-1)
+	var mu sync.Mutex
+	arrivedAt := map[int]int{}
+	all := make(chan struct{})
+	var once sync.Once
+	setPeerFunc(e.peers, func(ctx context.Context, node int, req *storepb.WriteRequest) error {
+		if !down[node] {
+			return nil
+		}
+		own := false
+		for _, td := range req.TimeseriesTenantData {
+			for i := range td.Timeseries {
+				if labelOf(&td.Timeseries[i], "vrun") != "p"+runID {
+					return nil
+				}
+				if labelOf(&td.Timeseries[i], "vstart") == strconv.Itoa(node) {
+					own = true
+				}
+			}
+		}
+		if own {
+			mu.Lock()
+			arrivedAt[node]++
+			full := true
+			for n := range down {
+				if arrivedAt[n] < primers {
+					full = false
+				}
+			}
+			mu.Unlock()
+			if full {
+				once.Do(func() { close(all) })
+			}
+		}
+		// every write to a node that is to go down waits until all of them are there: an early
+		// failure would already refuse the later primers
+		select {
+		case <-all:
+		case <-time.After(2 * time.Second):
+			primeTimeouts.Add(1)
+		case <-ctx.Done():
+		}
+		return status.Error(codes.Unavailable, "verif: primer")
+	})
+	var tss []prompb.TimeSeries
+	k := 0
+	for n := 0; n < nn; n++ {
+		if down[n] {
+			k++
+			tss = append(tss, series(map[string]string{"__name__": "verif_primer", "vser": strconv.Itoa(k),
+				"vstart": strconv.Itoa(n), "vrun": "p" + runID}, 1700000000000, 1))
+		}
+	}
+	body := v1Body(d.t, tss)
+	hdr := map[string]string{"Content-Type": "application/x-protobuf", "Content-Encoding": "snappy"}
+	var wg sync.WaitGroup
+	for i := 0; i < primers; i++ {
+		wg.Add(1)
+		go func() {
+			defer wg.Done()
+			cl := newClient()
+			_, _, _ = post(context.Background(), cl, e.url+"/api/v1/receive", body, hdr)
+			cl.CloseIdleConnections()
+		}()
+	}
+	wg.Wait()
+}
+
+// runOrder executes the case once with the given response order (1-based er indices) and retries
+// when the environment did not behave as the case demands (a back-off window that had already
+// expired, a straggler callback of an earlier run that put a healthy peer into back-off).
 func (d *fanoutDriver) runOrder(c vt.Case, ers []erSpec, outs []string, order []int) vt.Event {
+	var ev vt.Event
+	for attempt := 0; attempt < 6; attempt++ {
+		var valid bool
+		ev, valid = d.runOnce(c, ers, outs, order)
+		if valid {
+			ev["attempts"] = attempt + 1
+			return ev
+		}
+		retries.Add(1)
+	}
+	d.t.Fatalf("fan-out driver: could not establish the case's peer states in 6 attempts (case %v)", c)
+	return nil
+}
+
+func (d *fanoutDriver) runOnce(c vt.Case, ers []erSpec, outs []string, order []int) (vt.Event, bool) {
 	rf, nn, rep := vt.Int(c["rf"]), vt.Int(c["nn"]), vt.Int(c["rep"])
 	nser := len(vt.List(c["starts"]))
 	starts := vt.Ints(c["starts"])
-	e := d.env(rf, nn, vt.Str(c["mode"]))
-	e.h.Hashring(posHashring{eps: e.eps}) // same nodes: keeps connections, forgets peer back-off state
+	down, undial := map[int]bool{}, map[int]bool{}
+	nlocal := 0
+	for i, er := range ers {
+		switch outs[i] {
+		case "noconn":
+			down[er.node] = true
+			nlocal++
+		case "nodial":
+			undial[er.node] = true
+			nlocal++
+		}
+	}
+	for i, er := range ers {
+		if (down[er.node] && outs[i] != "noconn") || (undial[er.node] && outs[i] != "nodial") {
+			d.t.Fatalf("fan-out driver: case gives node %d both a local failure and another outcome: %v", er.node, c)
+		}
+	}
+	e := d.env(rf, nn, vt.Str(c["mode"]), len(down) > 0)
+	dead := vt.Bool(c["dead"]) // back-off nodes are really dead: nothing listens at their address
+	eps := e.eps
+	if len(undial) > 0 || (dead && len(down) > 0) {
+		eps = append([]receive.Endpoint(nil), e.eps...)
+		for n := range undial {
+			eps[n] = receive.Endpoint{Address: fmt.Sprintf("verif-bad-%%zz-%d:10901", n)} // invalid URL escape: grpc.NewClient fails
+		}
+		if dead {
+			if d.deadAddr == "" {
+				d.deadAddr = freeAddr(d.t)
+			}
+			for n := range down {
+				eps[n] = receive.Endpoint{Address: d.deadAddr, AZ: strconv.Itoa(n)}
+			}
+		}
+	}
+	e.h.Hashring(posHashring{eps: eps}) // keeps connections of unchanged nodes, forgets peer back-off state
 	d.runNo++
 	fr := &fanoutRun{runID: strconv.Itoa(d.runNo), ers: ers, outs: outs, idx: map[[2]int]int{},
 		rel: make([]chan struct{}, len(ers)), stored: make([]bool, len(ers)), arrived: make([]bool, len(ers))}
 	for i, er := range ers {
 		fr.idx[[2]int{er.node, er.replica}] = i
 		fr.rel[i] = make(chan struct{})
+	}
+	if len(down) > 0 {
+		d.prime(e, down, fr.runID, nn) // earlier requests fail on these nodes => back-off for this one
 	}
 	setPeerFunc(e.peers, fr.fn)
 	// drain stale hook signals (none expected)
@@ -203,6 +354,20 @@ func (d *fanoutDriver) runOrder(c vt.Case, ers []erSpec, outs []string, order []
 		cl.CloseIdleConnections()
 		done <- httpRes{st, body, err}
 	}()
+	// Local failures are answered by the handler itself while it sends the writes, i.e. before any
+	// peer is let through: effective order = local failures first, then the listed order.
+	relOrder, effective := []int{}, []int{}
+	for i := range ers {
+		if isLocal(outs[i]) {
+			effective = append(effective, i+1)
+		}
+	}
+	for _, o := range order {
+		if !isLocal(outs[o-1]) {
+			relOrder = append(relOrder, o)
+			effective = append(effective, o)
+		}
+	}
 	released := 0
 	releasedSet := make([]bool, len(ers))
 	release := func(i int) {
@@ -211,19 +376,35 @@ func (d *fanoutDriver) runOrder(c vt.Case, ers []erSpec, outs []string, order []
 			close(fr.rel[i])
 		}
 	}
+	releaseNext := func() {
+		if released < len(relOrder) {
+			release(relOrder[released] - 1)
+			released++
+		}
+	}
 	var res httpRes
 	haveRes := false
 	returned := false
 	deadline := time.After(60 * time.Second)
+	localsLeft := nlocal
+	var idle <-chan time.Time // armed while the handler waits for a local failure we expect it to have queued
 loop:
 	for {
 		select {
 		case <-fctl.next:
-			if released < len(order) {
-				release(order[released] - 1)
-				released++
+			idle = nil
+			if localsLeft > 0 {
+				localsLeft-- // let the handler account one locally produced failure
+				idle = time.After(500 * time.Millisecond)
+			} else {
+				releaseNext()
 			}
 			fctl.goOn <- struct{}{}
+		case <-idle:
+			// no local failure showed up (the handler did not queue one): go on with the peers
+			idle = nil
+			localsLeft = 0
+			releaseNext()
 		case <-fctl.ret:
 			returned = true
 			break loop
@@ -259,11 +440,29 @@ loop:
 	if placement != "" {
 		d.t.Fatalf("fan-out driver: placement differs from the case: %s (case %v)", placement, c)
 	}
+	// did the environment behave as the case says?  A write with a local failure must not have
+	// reached a peer; a write that was let through before the decision must have reached its peer.
+	valid := true
+	fr.mu.Lock()
+	for i := range ers {
+		if isLocal(outs[i]) && fr.arrived[i] {
+			valid = false
+		}
+	}
+	for k := 0; k < released; k++ {
+		if !fr.arrived[relOrder[k]-1] {
+			valid = false
+		}
+	}
+	fr.mu.Unlock()
+	if len(down) > 0 {
+		time.Sleep(2 * time.Millisecond) // let the completion callbacks of this run mark/unmark peers before the next reset
+	}
 	st := res.status
 	if res.err != nil {
 		st = 0
 	}
-	return vt.Event{"order": order, "status": st, "stored": storedAt, "released": released, "hooked": returned}
+	return vt.Event{"order": effective, "status": st, "stored": storedAt, "released": released, "hooked": returned}, valid
 }
 
 func parseErs(c vt.Case) ([]erSpec, []string) {
@@ -279,8 +478,23 @@ func parseErs(c vt.Case) ([]erSpec, []string) {
 func (d *fanoutDriver) runFanoutCase(c vt.Case) vt.Event {
 	ers, outs := parseErs(c)
 	runs := []any{}
+	seen := map[string]bool{}
 	for _, o := range vt.List(c["orders"]) {
-		runs = append(runs, d.runOrder(c, ers, outs, vt.Ints(o)))
+		ord := vt.Ints(o)
+		// local failures always come first, whatever the listed order says: skip orders that
+		// differ only in the position of local failures
+		var key []int
+		for _, x := range ord {
+			if !isLocal(outs[x-1]) {
+				key = append(key, x)
+			}
+		}
+		if k := fmt.Sprint(key); seen[k] {
+			continue
+		} else {
+			seen[k] = true
+		}
+		runs = append(runs, d.runOrder(c, ers, outs, ord))
 	}
 	return vt.Event{"runs": runs}
 }
@@ -315,7 +529,7 @@ func ersFor(rf, nn, rep int, starts []int) []map[string]any {
 	return out
 }
 
-func randomFanoutCase(rnd *rand.Rand, outcomes []string, maxRF, norders int) vt.Case {
+func randomFanoutCase(rnd *rand.Rand, outcomes []string, maxRF, norders int, locals bool) vt.Case {
 	nser := 1 + rnd.Intn(4)
 	rf := 1 + rnd.Intn(maxRF)
 	nn := rf + rnd.Intn(3)
@@ -341,6 +555,20 @@ func randomFanoutCase(rnd *rand.Rand, outcomes []string, maxRF, norders int) vt.
 			outs[i] = "ok"
 		}
 	}
+	dead := false
+	if locals && rnd.Intn(2) == 0 {
+		// node-level failures produced by the handler itself: peers in back-off / undiallable peers
+		for k := 1 + rnd.Intn(2); k > 0; k-- {
+			n := rnd.Intn(nn)
+			kind := []string{"noconn", "noconn", "nodial"}[rnd.Intn(3)]
+			for i, er := range ers {
+				if er["node"].(int) == n {
+					outs[i] = kind
+				}
+			}
+		}
+		dead = rnd.Intn(4) == 0
+	}
 	orders := make([][]int, 0, norders)
 	for k := 0; k < norders; k++ {
 		p := rnd.Perm(len(ers))
@@ -353,11 +581,59 @@ func randomFanoutCase(rnd *rand.Rand, outcomes []string, maxRF, norders int) vt.
 	if rep > 0 {
 		mode = "routeringestor"
 	}
-	return vt.Case{"rf": rf, "nn": nn, "starts": starts, "rep": rep, "ers": ers, "outs": outs, "orders": orders, "mode": mode}
+	return vt.Case{"rf": rf, "nn": nn, "starts": starts, "rep": rep, "ers": ers, "outs": outs, "orders": orders, "mode": mode, "dead": dead}
+}
+
+// dialFailureCases: one series, rf 1..maxRF, every multiset over ok/conflict/unavailable/nodial with at
+// least one undiallable peer, every order of the remaining answers.
+func dialFailureCases(maxRF int) []vt.Case {
+	alphabet := []string{"ok", "conflict", "unavailable", "nodial"}
+	var out []vt.Case
+	var rec func(rf int, outs []string, from int)
+	rec = func(rf int, outs []string, from int) {
+		if len(outs) == rf {
+			has := false
+			var rest []int
+			for i, o := range outs {
+				if o == "nodial" {
+					has = true
+				} else {
+					rest = append(rest, i+1)
+				}
+			}
+			if !has {
+				return
+			}
+			var orders [][]int
+			var perm func(cur, left []int)
+			perm = func(cur, left []int) {
+				if len(left) == 0 {
+					orders = append(orders, append([]int{}, cur...))
+					return
+				}
+				for i := range left {
+					nl := append(append([]int(nil), left[:i]...), left[i+1:]...)
+					perm(append(cur, left[i]), nl)
+				}
+			}
+			perm(nil, rest)
+			ers := ersFor(rf, rf, 0, []int{0})
+			out = append(out, vt.Case{"rf": rf, "nn": rf, "starts": []int{0}, "rep": 0, "ers": ers,
+				"outs": append([]string(nil), outs...), "orders": orders, "mode": "router", "dead": false})
+			return
+		}
+		for k := from; k < len(alphabet); k++ {
+			rec(rf, append(outs, alphabet[k]), k)
+		}
+	}
+	for rf := 1; rf <= maxRF; rf++ {
+		rec(rf, nil, 0)
+	}
+	return out
 }
 
 // fanoutGen yields the TLC cases (with a seeded choice of receiver mode) and then n random ones.
-func fanoutGen(t *testing.T, outcomes []string, maxRF, n, norders int) func(yield func(vt.Case)) {
+func fanoutGen(t *testing.T, outcomes []string, maxRF, n, norders int, locals bool) func(yield func(vt.Case)) {
 	return func(yield func(vt.Case)) {
 		rnd := vt.Rand()
 		for _, c := range vt.TLCCases(t) {
@@ -367,8 +643,13 @@ func fanoutGen(t *testing.T, outcomes []string, maxRF, n, norders int) func(yiel
 			}
 			yield(c)
 		}
+		if locals {
+			for _, c := range dialFailureCases(vt.Pick(3, 4)) {
+				yield(c)
+			}
+		}
 		for i := 0; i < n; i++ {
-			yield(randomFanoutCase(rnd, outcomes, maxRF, norders))
+			yield(randomFanoutCase(rnd, outcomes, maxRF, norders, locals))
 		}
 	}
 }
